@@ -9,10 +9,10 @@ import solvercorr as sc
 import solverslices
 from props.c04 import TRUSTED as _T
 
-THEOREMS = ["C01_symbol", "C01_consistency", "C01_bvp_exact", "C01_top_decay", "C01_top_decays_in_C"]
+THEOREMS = ["C01_symbol", "C01_consistency", "C01_bvp_exact", "C01_top_decay", "C01_top_decays_in_C", "C01_convergence_partial"]
 TRUSTED = _T + ["scipy.integrate.solve_ivp (DOP853, rtol 1e-11) as the reference for the continuous boundary-value problem in the oracle"]
 ASSUMPTIONS = [
-    "PARTIAL: convergence of the discrete solution to the ODE solution as the grid is refined is not a Coq theorem (no ODE/complex-analysis library is installed); proved are consistency of every layer step, exactness and uniqueness of the discrete two-point problem and the decaying top condition; the asymptotic clause is decided by the oracle against an independent Riccati integration at n, 4n, 16n layers",
+    "PARTIAL: convergence of the discrete solution to the ODE solution as the grid is refined is a Coq theorem for HEIGHT-INDEPENDENT coefficients only (C01_convergence_partial: explicit third-order bound on any grid, every wind, plus is_lim_seq on uniform grids); for height-dependent profiles it is not proved (no ODE library is installed); proved in general are consistency of every layer step, exactness and uniqueness of the discrete two-point problem and the decaying top condition; the asymptotic clause is decided by the oracle against an independent Riccati integration at n, 4n, 16n layers",
     "oracle criteria: per resolved component the error ratio over the finest quartering (4n -> 16n) is >= 2.5 and the error at every grid is <= 8 x the relative layer thickness; the coarsest quartering is not asserted per component because isolated components show accidental error cancellation on the coarsest grid (measured on the unchanged tree: ratios between 0.04 and 16 with fine-step ratios 3.2-4.5 throughout)",
 ]
 
@@ -29,7 +29,7 @@ def gen(ctx):
 
 
 def check(ctx):
-    core.check_properties_file(ctx, "Properties/C01.v", THEOREMS, {"C01_top_decays_in_C": core.AX_REALS})
+    core.check_properties_file(ctx, "Properties/C01.v", THEOREMS, {"C01_top_decays_in_C": core.AX_REALS, "C01_convergence_partial": core.AX_REALS})
     solverslices.run(ctx)
     cases = gen(ctx)
     recs = sc.correspond(ctx, cases, "c01_")
